@@ -429,6 +429,15 @@ func (h *ordH) hookEnq() {
 			// the goroutine that is to cancel an incoming call gets the processor late (a schedule)
 			time.Sleep(time.Duration(h.c.ck) * time.Millisecond)
 		}
+		if site == "A1" && (h.c.tr == "rh" || h.c.tr == "rs" || h.c.tr == "rn") {
+			// a slow session reader on the StreamableHTTPHandler paths (rh, rs, rn): the connection's reader goroutine
+			// pauses before it accepts this message (on rw/rwj the wrapping connection pauses after Read instead)
+			if req, ok := subj.(*jsonrpc2.Request); ok && req != nil {
+				if tag := ordRawTag(req.Params); tag >= 0 && tag < len(h.c.msgs) && h.c.msgs[tag].rs > 0 {
+					time.Sleep(time.Duration(h.c.msgs[tag].rs) * time.Millisecond)
+				}
+			}
+		}
 		if site != "A2" {
 			return
 		}
@@ -1236,7 +1245,8 @@ func ordGenRaw(rng *rand.Rand, tr string, maxLen int) *ordCase {
 			c.msgs[len(c.msgs)-1].gap = 1 + rng.Intn(9)
 		}
 	}
-	if gated {
+	{
+		// the session's reader pauses now and then: on rw/rwj through the wrapping connection, elsewhere at site A1
 		for i := 1; i < len(c.msgs); i++ {
 			if c.msgs[i].rs == 0 && rng.Intn(12) == 0 {
 				c.msgs[i].rs = 1 + rng.Intn(60)
@@ -1247,7 +1257,7 @@ func ordGenRaw(rng *rand.Rand, tr string, maxLen int) *ordCase {
 }
 
 func ordGen(rng *rand.Rand, tr string, maxLen int) *ordCase {
-	if strings.HasPrefix(tr, "r") {
+	if strings.HasPrefix(tr, "r") && tr != "run" {
 		return ordGenRaw(rng, tr, maxLen)
 	}
 	c := &ordCase{tr: tr}
